@@ -23,6 +23,7 @@ ASSUMPTIONS = ["Path.resolve() on a scratch tree without symlinks = lexical norm
                "JSON text <-> value is json.loads/json.dumps"]
 
 DIRS = ["", "sub", "sub/deep", "other", "sub/x y"]
+ABS = "@ABS@"          # stands for the absolute path of the scratch directory (the model's /R)
 LEAFKEYS = ["a", "b", "c", "d", "e"]
 DICTKEYS = ["n", "m"]
 
@@ -65,7 +66,10 @@ def render_native(body: dict, includes: list[str], rng, selfref_keys=()) -> str:
             out.append(f"{k} ${k};\n")
         else:
             out.append(NativeFormatter().to_string({k: v}))
-    return "".join(out)
+    text = "".join(out)
+    if rng.random() < 0.25 and text.endswith("\n"):
+        text = text[:-1]            # no line ending after the last line (which may be an include directive)
+    return text
 
 
 def render_json(body: dict, includes: list[str]) -> str:
@@ -106,6 +110,8 @@ def gen_graph_case(rng, nfiles: int, edges=None, syntaxes=None) -> dict:
                 rel = posixpath.relpath(posixpath.join("/R", target), posixpath.dirname(posixpath.join("/R", nm)))
                 if rng.random() < 0.3 and not rel.startswith(".."):
                     rel = "./" + rel
+                elif rng.random() < 0.15:
+                    rel = ABS + "/" + target          # the same file named by its absolute path
                 incs.append(rel)
         selfref = ()
         if not nm.endswith(".json") and incs and rng.random() < 0.2:
@@ -126,7 +132,7 @@ def reference(case: dict):
     def visit(nm, ancestors):
         order.append(nm)
         for inc in bodies[nm]["includes"]:
-            target = posixpath.normpath(posixpath.join(posixpath.dirname(nm), inc))
+            target = posixpath.normpath(inc[len(ABS) + 1:] if inc.startswith(ABS + "/") else posixpath.join(posixpath.dirname(nm), inc))
             if target in ancestors or target not in bodies:
                 continue
             visit(target, ancestors + [target])
@@ -155,6 +161,7 @@ def process(ctx: Ctx, cases: list[dict]) -> None:
         fs = []
         for nm, text in c["files"].items():
             comps = ["R"] + nm.split("/")
+            text = text.replace(ABS, "/R")
             if nm.endswith(".json"):
                 fs.append([comps, {"json": enc_entries(_json.loads(text))}])
             else:
@@ -172,7 +179,7 @@ def process(ctx: Ctx, cases: list[dict]) -> None:
                 for nm, text in c["files"].items():
                     p = td / nm
                     p.parent.mkdir(parents=True, exist_ok=True)
-                    p.write_text(text)
+                    p.write_text(text.replace(ABS, str(td)))
                 reset_globals()
                 sd = DictReader.read(td / c["root"])
                 isd = c01.sd_json(sd)
@@ -205,9 +212,7 @@ def process(ctx: Ctx, cases: list[dict]) -> None:
             for m, i, what in ((replies[2 * ci], isd, "DictReader.read"), (replies[2 * ci + 1], isd_off, "DictReader.read(includes=False)")):
                 if isinstance(m, dict) and "sd" in m:
                     msd = canon_floats(m["sd"])
-                    ii = _json.loads(_json.dumps(i))
-                    for e in ii["incl"]:
-                        e[1][2] = e[1][2].replace(tdname, "/R")
+                    ii = _json.loads(_json.dumps(i).replace(tdname, "/R"))
                     if msd != ii:
                         ctx.disagree(what, {"files": c["files"], "root": c["root"]}, msd, ii)
                     elif what == "DictReader.read" and m.get("counter") != cnt:
